@@ -10,7 +10,7 @@ from ..core import case_seed
 PID = 'C01'
 TAU = 1e-9
 RULE = ('cross product function x D x coefficient pattern (P, shape, dtype real/complex, entry point drawn per case); '
-        'every element and direction of the result is compared at every order d<D with the mpmath composition oracle, '
+        'memory layout of the input {C, Fortran, transposed view, strided, negative stride} drawn per case; every element and direction of the result is compared at every order d<D with the mpmath composition oracle, '
         'tolerance 1e-9 x majorant; a class = (function, D, P, shape, dtype, pattern, entry point); non-trivial = '
         'D>=2 and the pattern has a non-zero higher coefficient, or D==1 (value check)')
 ASSUMPTIONS = ['mpmath 1.3 special functions and mp.taylor at 60+ digits are correct (cross-checked in selftest/oracles.py)',
@@ -105,7 +105,8 @@ def cases(tier, seed):
                     out.append({'kind': 'fn', 'seed': s, 'params': {
                         'fn': name, 'D': D, 'pattern': pat, 'P': int(r.choice(Ps)),
                         'shape': list(shapes[int(r.integers(len(shapes)))]), 'cplx': bool(r.integers(2)),
-                        'entry': int(r.integers(4))}})
+                        'entry': int(r.integers(4)),
+                        'layout': ['C', 'C', 'F', 'T', 'strided', 'reversed'][int(r.integers(6))]}})
     return out
 
 
@@ -155,7 +156,8 @@ def run_case(ctx, case):
     data = gen.series_data(rng, D, P, shape, dom, pat, cplx)
     ents = sorted(t['entries'].items())
     ename, f = ents[p['entry'] % len(ents)]
-    x = UTPM(data.copy())
+    layout = p.get('layout', 'C')
+    x = UTPM(gen.relayout(data, layout))
     try:
         y = f(x)
     except Exception as e:
@@ -169,7 +171,7 @@ def run_case(ctx, case):
                       {'fn': name, 'entry': ename, 'error': repr(e)[:300]})
         return
     yd = _unwrap(y, D, P, shape)
-    cls = (name, D, P, shape, 'c' if cplx else 'r', pat, ename)
+    cls = (name, D, P, shape, 'c' if cplx else 'r', pat, ename, layout)
     if yd is None or yd.shape != data.shape:
         ctx.violation('%s:shape:%s' % (name, ename), {'fn': name, 'entry': ename, 'got_type': type(y).__name__,
                                                         'got_shape': getattr(yd, 'shape', None), 'want': data.shape})
@@ -190,7 +192,7 @@ def run_case(ctx, case):
             if not (e <= TAU):
                 d_bad = next(d for d in range(D) if not abs(O.num(got[d]) - ref[d]) <= TAU * (maj[d] + mp.mpf(10) ** -280))
                 ctx.violation('%s:coeff:%s:%s' % (name, 'complex' if cplx else 'real', 'd0' if d_bad == 0 else 'd>=1'),
-                              {'fn': name, 'entry': ename, 'D': D, 'P': P, 'shape': shape, 'direction': pp, 'element': idx,
+                              {'fn': name, 'entry': ename, 'D': D, 'P': P, 'shape': shape, 'layout': layout, 'direction': pp, 'element': idx,
                                'first_bad_order': d_bad, 'got': complex(got[d_bad]) if cplx else float(np.real(got[d_bad])),
                                'want': str(mp.nstr(ref[d_bad], 17)), 'err_over_majorant': e, 'x': [complex(v) if cplx else float(v) for v in xs]})
                 return
